@@ -138,7 +138,23 @@ func (h *vHub) exec(op string) string {
 	par := strings.HasPrefix(op, "par ")
 	if par {
 		var wg sync.WaitGroup
-		for _, sub := range strings.Split(strings.TrimPrefix(op, "par "), ";;") {
+		subs := strings.Split(strings.TrimPrefix(op, "par "), ";;")
+		n := 0
+		for _, sub := range subs {
+			f := strings.Fields(sub)
+			if len(f) > 3 && ((f[0] == "hello" && f[3] == "c") || (f[0] == "join" && vDec(f[2]) != "")) {
+				n++
+			}
+		}
+		h.mu.Lock()
+		h.barN, h.barSeen, h.barCh = n, 0, make(chan struct{})
+		h.mu.Unlock()
+		defer func() {
+			h.mu.Lock()
+			h.barN, h.barCh = 0, nil
+			h.mu.Unlock()
+		}()
+		for _, sub := range subs {
 			sub := strings.TrimSpace(sub)
 			if sub == "" {
 				continue
@@ -1212,8 +1228,8 @@ func (g *vGen) finale() string {
 	}
 	switch r.intn(3) {
 	case 0:
-		n := 2 + r.intn(2)
-		g.emit("limit %d %d", b, registered+1)
+		n := 2 + r.intn(5)
+		g.emit("limit %d %d", b, registered+1+r.intn(2))
 		var subs []string
 		for c := 7; c < 7+n; c++ {
 			g.opConnect(c)
@@ -1222,7 +1238,7 @@ func (g *vGen) finale() string {
 		g.emit("par %s", strings.Join(subs, " ;; "))
 		return "race-for-last-slot"
 	case 1:
-		n := 2 + r.intn(2)
+		n := 2 + r.intn(4)
 		var subs []string
 		for c := 7; c < 7+n; c++ {
 			id := g.opHello(c, b, "c", g.someUser(), 0, 0)
@@ -1270,7 +1286,7 @@ func vHubGen(e *vEnv, r *vRand) []vCase {
 		for len(g.ops) < nops {
 			g.step()
 		}
-		if rr.chance(1, 2) {
+		if rr.chance(3, 4) {
 			tags = append(tags, "finale:"+g.finale())
 		}
 		cases = append(cases, vCase{Ops: g.ops, Tags: tags})
